@@ -715,7 +715,7 @@ fn op_strategy() -> BoxedStrategy<LifeOp> {
         6 => (0u8..3, prop_oneof![8 => 0u16..256, 1 => Just(255u16), 1 => 256u16..300], tick_sel(true), tick_sel(false)).prop_map(|(bundle, index, lower, upper)| LifeOp::OpenBundled { bundle, index, lower, upper }),
         2 => (0u8..3).prop_map(|bundle| LifeOp::DeleteBundle { bundle }),
         1 => (0u8..3, prop_oneof![3 => Just(None), 1 => (0u16..256).prop_map(Some)]).prop_map(|(bundle, skip)| LifeOp::FillBundle { bundle, skip }),
-        10 => (any::<u16>(), prop_oneof![4 => (16u32..50).prop_map(|b| 1u128 << b), 1 => 1u128..1000]).prop_map(|(pos, liquidity)| LifeOp::Increase { pos, liquidity }),
+        10 => (any::<u16>(), prop_oneof![4 => (16u32..50).prop_map(|b| 1u128 << b), 1 => 1u128..1000, 1 => prop_oneof![Just(1u128 << 64), Just(3u128 << 64), Just(1u128 << 66), Just((1u128 << 64) + (1u128 << 32))]]).prop_map(|(pos, liquidity)| LifeOp::Increase { pos, liquidity }),
         6 => (any::<u16>(), any::<bool>(), prop_oneof![3 => Just(false), 1 => Just(true)]).prop_map(|(pos, all, by_delegate)| LifeOp::Decrease { pos, all, by_delegate }),
         3 => (any::<u16>(), 0u8..4).prop_map(|(pos, to)| LifeOp::Approve { pos, to }),
         4 => any::<u16>().prop_map(|pos| LifeOp::CollectFees { pos }),
